@@ -205,6 +205,88 @@ func (a *API) Sub(ctx context.Context, tok int) (<-chan int, error) {
 	return ch, nil
 }
 
+// Payload is the byte sequence a reader-carrying call uploads.
+func Payload(tok, n int) []byte {
+	b := make([]byte, n)
+	for i := range b {
+		b[i] = byte((i*31 + tok*7 + i/251) % 251)
+	}
+	return b
+}
+
+func fnv(b []byte) uint32 {
+	h := uint32(2166136261)
+	for _, c := range b {
+		h ^= uint32(c)
+		h *= 16777619
+	}
+	return h
+}
+
+// ReadAll consumes a reader parameter with the read pattern planned for the
+// token (Tok.N) and reports what it saw: "<len>:<fnv>:<observations>".
+func (a *API) ReadAll(ctx context.Context, tok int, r io.Reader) (string, error) {
+	t := a.enter(ctx, tok)
+	defer a.leave(t)
+	var got []byte
+	obs := ""
+	readAll := func(bufSize int) error {
+		buf := make([]byte, bufSize)
+		for {
+			n, err := r.Read(buf)
+			got = append(got, buf[:n]...)
+			if err == io.EOF {
+				return nil
+			}
+			if err != nil {
+				return err
+			}
+			if n == 0 {
+				simrt.Yield("reader-zero")
+			}
+		}
+	}
+	past := func(k int) {
+		for i := 0; i < k; i++ {
+			n, err := r.Read(make([]byte, 16))
+			if n != 0 || err != io.EOF {
+				obs += fmt.Sprintf("past-eof-read-%d=(%d,%v);", i, n, err)
+			} else {
+				obs += "eof;"
+			}
+		}
+	}
+	var err error
+	switch t.N {
+	case 0:
+		got, err = io.ReadAll(r)
+	case 1:
+		err = readAll(1)
+	case 2:
+		err = readAll(7)
+	case 3:
+		err = readAll(512)
+		past(2)
+	case 4:
+		buf := make([]byte, t.Size/2+1)
+		n, _ := io.ReadFull(r, buf)
+		got = buf[:n]
+		if c, ok := r.(io.Closer); ok {
+			obs += fmt.Sprintf("close=%v;", c.Close())
+		}
+	case 5:
+		err = readAll(4096)
+		if c, ok := r.(io.Closer); ok {
+			obs += fmt.Sprintf("close=%v;", c.Close())
+		}
+		// (a Read after Close is caller misuse and not constrained by the property)
+	}
+	if err != nil {
+		return "", fmt.Errorf("read error: %w", err)
+	}
+	return fmt.Sprintf("%d:%08x:%s", len(got), fnv(got), obs), nil
+}
+
 // RevClient is the proxy the server uses to call back into a client.
 type RevClient struct {
 	Who      func(ctx context.Context, tok int) (string, error)
@@ -268,6 +350,7 @@ type Proxy struct {
 	Sub       func(ctx context.Context, tok int) (<-chan int, error)
 	SubRetry  func(ctx context.Context, tok int) (<-chan int, error) `rpc_method:"T.Sub" retry:"true"`
 	Rev       func(ctx context.Context, tok int) (string, error)
+	ReadAll   func(ctx context.Context, tok int, r io.Reader) (string, error)
 }
 
 type Client struct {
